@@ -170,7 +170,32 @@ class Models:
         self.froms[("itertools", "product")] = Builtin("product", lambda I, a, k: ProductV(a[0], a[1]) if len(a) == 2 else _unsup("itertools.product arity"))
         self.froms[("itertools", "chain")] = Builtin("chain", lambda I, a, k: _unsup("itertools.chain"))
         self.froms[("dataclasses", "dataclass")] = Builtin("dataclass", lambda I, a, k: a[0] if a else Builtin("dataclass()", lambda I2, a2, k2: a2[0]))
-        self.modules["dataclasses"] = ModelModule("dataclasses", {})
+        def asdict(I, args, kw):
+            obj = args[0]
+            if isinstance(obj, SObj) and isinstance(obj.cls, ClassV):
+                out = PyDict()
+                for name in dataclass_fields(I, obj.cls):
+                    out.d[name] = I.getattr(obj, name)
+                return out
+            if isinstance(obj, SObj) and "_dataclass_fields" in obj.fields:
+                out = PyDict()
+                for name in obj.fields["_dataclass_fields"]:
+                    out.d[name] = obj.fields[name]
+                return out
+            raise Unsupported("dataclasses.asdict of a non-dataclass")
+
+        self.modules["dataclasses"] = ModelModule("dataclasses", {"asdict": Builtin("dataclasses.asdict", asdict), "dataclass": self.froms[("dataclasses", "dataclass")]})
+        self.froms[("enum", "Enum")] = "Enum"
+        self.froms[("enum", "auto")] = Builtin("enum.auto", lambda I, a, k: EnumAuto())
+
+        def signature(I, args, kw):
+            f = args[0]
+            fn = f.fn if isinstance(f, BoundMethod) else f
+            if not isinstance(fn, Closure):
+                raise Unsupported("inspect.signature of a non-function")
+            return SignatureV(I, fn)
+
+        self.modules["inspect"] = ModelModule("inspect", {"signature": Builtin("inspect.signature", signature)})
         self.modules["abc"] = ModelModule("abc", {"ABC": "ABC"})
         def new_class(I, args, kw):
             import ast as _ast
@@ -376,8 +401,44 @@ class Models:
                 return PyList([items[i] for i in order])
             if len(items) <= 1:
                 return PyList(list(items))
+            srt = self.solver_sort(I, items, keys, rev)
+            if srt is not None:
+                return PyList(srt)
         # not modelled: the result may be stored but any inspection of it is unsupported
         return LazyUnsupported(f"sorted over {type(args[0]).__name__}")
+
+    def solver_sort(self, I, items, keys, rev):
+        """Sort a concrete-length list whose keys are opaque strings (or tuples led by one) when the path condition fixes their order."""
+        from . import smt
+        from .symtheory import StrV, ord_f
+
+        def lead(k):
+            if isinstance(k, StrV):
+                return k
+            if isinstance(k, tuple) and k and isinstance(k[0], StrV):
+                return k[0]
+            return None
+
+        leads = [lead(k) for k in keys]
+        if any(l is None for l in leads):
+            return None
+        order = list(range(len(items)))
+        hyps = I.path.hyps()
+
+        def less(a, b):
+            c = ord_f(leads[a].z) < ord_f(leads[b].z)
+            if not smt.feasible(hyps + [z3.Not(c)]):
+                return True
+            if not smt.feasible(hyps + [c]):
+                return False
+            raise Unsupported("order of string keys is not determined by the path condition")
+
+        import functools
+
+        order.sort(key=functools.cmp_to_key(lambda a, b: -1 if less(a, b) else 1))
+        if rev:
+            order.reverse()
+        return [items[i] for i in order]
 
     def m_reversed(self, I, args, kw):
         s = I.iter_seq(args[0])
@@ -553,6 +614,24 @@ class Models:
         return wrap(z3.Exists([j], body))
 
     def seq_method(self, I, seq, name):
+        if name in ("extend", "append"):
+
+            def f(I2, args, kw):
+                if I2.merge_depth:
+                    raise Unsupported(f"list.{name} of a symbolic list inside a summarised loop")
+                if name == "append":
+                    tail = SSeq.from_list([args[0]])
+                else:
+                    t = I2.iter_seq(args[0])
+                    tail = as_seq2(t)
+                new = seq.concat(tail)
+                new.pvc_type = "list"
+                I2.replace_object(seq, new)
+                return None
+
+            return Builtin(f"list.{name}", f)
+        if name == "index":
+            raise Unsupported("list.index on a symbolic list")
         raise Unsupported(f"sequence method {name}")
 
     def opaque_getattr(self, I, obj, name):
@@ -602,6 +681,61 @@ class Models:
     def pymod(self, I, a, b):
         q = self.floordiv(I, a, b)
         return SInt(a - q.z * b)
+
+
+class EnumAuto:
+    pass
+
+
+class EnumMember:
+    def __init__(self, cls, name, value):
+        self.cls, self.name, self.value = cls, name, value
+
+    def pvc_isinstance(self, I, t):
+        return t is self.cls
+
+    def pvc_eq(self, I, other):
+        if isinstance(other, EnumMember):
+            return other is self
+        return False
+
+    def pvc_getattr(self, I, attr):
+        if attr == "name":
+            return self.name
+        if attr == "value":
+            return self.value
+        return NotImplemented
+
+    def __repr__(self):
+        return f"{self.cls.name}.{self.name}"
+
+
+class SignatureV:
+    def __init__(self, I, fn):
+        self.I, self.fn = I, fn
+
+    def pvc_getattr(self, I, attr):
+        if attr == "return_annotation":
+            r = self.fn.node.returns
+            if r is None:
+                raise Unsupported("function without return annotation")
+            return I.eval_in(r, self.fn.module, self.fn.enclosing)
+        return NotImplemented
+
+
+def dataclass_fields(I, cls):
+    """Annotated class attributes of a @dataclass class (own + inherited), in definition order."""
+    import ast as _ast
+
+    out = []
+    for b in cls.bases:
+        if isinstance(b, ClassV):
+            out += [f for f in dataclass_fields(I, b) if f not in out]
+    for st in cls.node.body:
+        if isinstance(st, _ast.AnnAssign) and isinstance(st.target, _ast.Name):
+            if st.target.id not in out:
+                out.append(st.target.id)
+    return out
 
 
 class LazyUnsupported:
